@@ -110,6 +110,14 @@ def compare_loads(ctx, kind, obj, text, where):
                 ('bytearray', bytearray(text.encode('latin-1', 'replace'))), ('crlf', text.replace('\n', '\r\n')),
                 ('surrounded', 'Dear reader,\nsome text before\n\n' + text + '\nand after\n')]
     if kind != 'clear':
+        # the same block as other producers write it: any line width up to the 76 columns the RFC allows (MIME-style encoders use 76),
+        # with and without header lines / checksum line
+        label0 = text.split('-----BEGIN PGP ', 1)[1].split('-----', 1)[0] if '-----BEGIN PGP ' in text else None
+        if label0:
+            for wd in (76, 72, 60, 48, 8, 4):     # multiples of four: the pad characters stay attached to the last quantum
+                variants.append(('rewrapped-at-%d' % wd, armor.armor(label0, raw, width=wd)))
+            variants.append(('rewrapped-at-76-crlf', armor.armor(label0, raw, width=76, eol='\r\n')))
+            variants.append(('with-foreign-headers-76', armor.armor(label0, raw, headers=[('Version', 'Other 1.0'), ('Comment', 'x' * 100)], width=76)))
         # an armor header line stands on a line of its own (6.2): the marker inside a line of the surrounding text is just text
         label = text.split('-----BEGIN PGP ', 1)[1].split('-----', 1)[0] if '-----BEGIN PGP ' in text else 'MESSAGE'
         quoted = ''.join('> ' + ln + '\n' for ln in text.splitlines())
